@@ -351,8 +351,9 @@ func C06(p *core.Program, r *core.Report) {
 				// byte; the empty string has been returned before)
 				// spellings of "starts with #" (the string is known to be non-empty at that point)
 				"fragment": `^(strings\.HasPrefix\(` + regexp.QuoteMeta(ref) + `,"#"\)|` + regexp.QuoteMeta(ref) + `\[0\] == 35|` + regexp.QuoteMeta(ref) + `\[:1\] == "#")$`,
-				"data":     q(`strings.HasPrefix(` + ref + `,"data:")`),
-				"js":       q(`strings.HasPrefix(` + ref + `,"javascript:")`),
+				// a scheme is case-insensitive: JavaScript: and DATA: are the same pass-through cases
+				"data":     `^(` + regexp.QuoteMeta(`stringutil.HasPrefixIgnoreCase(`+ref+`,"data:")`) + `|` + regexp.QuoteMeta(`strings.HasPrefix(strings.ToLower(`+ref+`),"data:")`) + `|` + regexp.QuoteMeta(`strings.HasPrefix(strings.ToLower(`+ref+`),strings.ToLower("data:"))`) + `)$`,
+				"js":       `^(` + regexp.QuoteMeta(`stringutil.HasPrefixIgnoreCase(`+ref+`,"javascript:")`) + `|` + regexp.QuoteMeta(`strings.HasPrefix(strings.ToLower(`+ref+`),"javascript:")`) + `|` + regexp.QuoteMeta(`strings.HasPrefix(strings.ToLower(`+ref+`),strings.ToLower("javascript:"))`) + `)$`,
 				"uri.ok":   q(pr + `#1 == nil`),
 				"noscheme": q(pr + `#0.Scheme == ""`),
 				"nohost":   q(`url.URL.Hostname(` + pr + `#0) == ""`),
@@ -370,6 +371,13 @@ func C06(p *core.Program, r *core.Report) {
 			},
 		}
 		core.CheckDecisionList(r, "U3", "CreateAbsoluteURL", paths, atoms, spec)
+		if hp := p.Func("mod/internal/stringutil.HasPrefixIgnoreCase"); hp != nil {
+			got := ""
+			for _, ret := range core.Returns(hp) {
+				got = core.NewCanon(p).Of(ret.Results[0])
+			}
+			r.Add("U3", "HasPrefixIgnoreCase compares the lower-cased value with the lower-cased prefix", p.Pos(hp.Pos()), got == `strings.HasPrefix(strings.ToLower($0),strings.ToLower($1))`, got)
+		}
 	}
 
 	// ---- U5: the base itself is stable: nothing reachable from the entry points writes the page URL
